@@ -2,9 +2,9 @@
   IoosQc.Model.Carrier — how the QC tests turn the objects they are given into a series of
   (possibly missing) numbers and an axis of instants.
 
-  Data:  `np.ma.masked_invalid(np.array(inp).astype(np.float64))`.
-         `np.array(x)` of a masked array returns its RAW data (the mask is dropped), so a masked
-         cell holding a finite number is evaluated as that number — known finding F-11.
+  Data:  `np.ma.masked_invalid(np.ma.array(inp).astype(np.float64).filled(np.nan))` (after the
+         repair of F-11; before it `np.array(inp)` dropped the mask and a masked cell holding a
+         finite number was evaluated as that number).
   Times: `utils.mapdates` — tz-aware pandas objects are made naive (UTC wall time), pandas /
          numpy datetimes are cast to ns, anything else is read as seconds since the epoch.
 -/
@@ -40,9 +40,15 @@ def DataCarrier.denote : DataCarrier → List V
 def DataCarrier.normalize : DataCarrier → List V
   | .pySeq cs => cs.map PyCell.toV
   | .floatArr xs => xs
+  | .maskedArr d m => List.zipWith (fun x b => if b then none else x) d m      -- filled(nan), then masked_invalid
+
+/-- What the tests computed before the repair of F-11 (`np.array(inp)` returns the RAW data). -/
+def DataCarrier.normalizeOld : DataCarrier → List V
+  | .pySeq cs => cs.map PyCell.toV
+  | .floatArr xs => xs
   | .maskedArr d _ => d
 
-/-- The class of inputs of known finding F-11: a masked cell whose raw data is a number. -/
+/-- The class of inputs of (fixed) finding F-11: a masked cell whose raw data is a number. -/
 def DataCarrier.Bad : DataCarrier → Bool
   | .maskedArr d m => (List.zipWith (fun (x : V) b => b && x.isSome) d m).any id
   | _ => false
